@@ -26,7 +26,6 @@ Definition show (r : FileLoad.tout) : list Z :=
     ++ (-7) :: map (@TermCore.zlen _) (TermCore.lines t) ++ (-9) :: flat_map (fun '(w, h) => [w; h]) layers
   | FileLoad.TErr => [0]
   | FileLoad.TPanic s => [-1; s]
-  | FileLoad.TOverflow => [-2]
   end.
 Definition mk_sixels (l : list (Z * Z * Z * Z)) : list FileLoad.sixel := map (fun '(x, y, w, h) => FileLoad.mkSx x y w h) l.
 
